@@ -1,14 +1,17 @@
 #!/bin/bash
-# seedsweep.sh [budget_s]: run the quick check of the broken property against every kept seeded change
-# (scratch worktrees; never touches /repo). Prints one line per seed: CAUGHT / MISSED.
-B="${1:-12}"
+# seedsweep.sh [budget_s] [stream] [streams]: run the quick check of the property that catches it against every kept
+# seeded change (scratch worktrees; never touches /repo). Prints one line per seed: CAUGHT / MISSED.
+# With stream/streams only every streams-th seed is taken (run several streams side by side).
+B="${1:-12}"; S="${2:-0}"; N="${3:-1}"
 cd /verif
+i=-1
 for d in /verif/seeded/*/; do
+  i=$((i+1)); [ $((i % N)) -eq "$S" ] || continue
   n=$(basename "$d")
-  p=$(python3 -c "import json;print(json.load(open('$d/meta.json'))['breaks_property'])")
-  if [ "$p" = "C20" ] && { [ "$n" = "C20b-did-signbytes-shared-scratch" ] || [ "$n" = "C20y-keytype-warn-once-map" ]; }; then
-    out=$(/verif/mutrace.sh "$d/patch.diff" 2>&1); if echo "$out" | grep -q "^VIOLATION property=C20"; then echo "CAUGHT $n by C20 (race build)"; else echo "MISSED $n"; fi; continue
-  fi
-  out=$(VERIF_KS_QUICK_S=12 ./mutcheck.sh "$d/patch.diff" "$B" "$p" 2>&1)
+  p=$(python3 -c "import json;m=json.load(open('$d/meta.json'));c=m.get('caught_by_checks') or [];b=m['breaks_property'];print(b if (b in c or not c) else c[0])")
+  case "$n" in C20b-*|C20y-*|C20h-*)
+    out=$(/verif/mutrace.sh "$d/patch.diff" 2>&1); if echo "$out" | grep -q "^VIOLATION property=C20"; then echo "CAUGHT $n by C20 (race build)"; else echo "MISSED $n"; fi; continue;;
+  esac
+  out=$(VERIF_MINIMISE_S=1 VERIF_KS_QUICK_S=12 ./mutcheck.sh "$d/patch.diff" "$B" "$p" 2>&1)
   if echo "$out" | grep -q "^VIOLATION property=$p\|^violation: property=$p"; then echo "CAUGHT $n by $p: $(echo "$out" | grep -m1 '^violation' | cut -c1-120)"; else echo "MISSED $n ($p): $(echo "$out" | grep -E 'exit=|MACHINERY' | head -2 | tr '\n' ' ')"; fi
 done
